@@ -46,7 +46,7 @@ STYLES = [
     {"spaces": False, "explicit_last_prob": True, "indent": "  "},
 ]
 HOSTILE = ["n", "t", "k", "pi", "e", "i", "oo", "inf", "nan", "zoo", "x0", "_u0", "_t0", "old", "sin", "exp", "r", "a_1"]
-PROBES = ["x + 8/4*2", "x - 5 - 1 - 1", "x + 2**3**2 - 500", "x - c**2", "x + -c", "x - -c*2", "x + 2*-3", "x + (c - 1)*(c + 1)",
+PROBES = ["-c**2 + x", "x + -2**2", "-2**2 + x", "-c**2*3 + x", "x + -c**2", "x + 8/4*2", "x - 5 - 1 - 1", "x + 2**3**2 - 500", "x - c**2", "x + -c", "x - -c*2", "x + 2*-3", "x + (c - 1)*(c + 1)",
           "x + 6/3/2", "x + 2**-1", "x - (2 - c)", "x + 1/2*c", "x + 0.5*c - .25", "x + 1e1*c"]
 
 
